@@ -387,11 +387,6 @@ def _do_extract(raw, i, unitfile, repo_root, out, log, meta, twin=False):
                     raise ExtractError(f"@loop it=: not a for loop: `{ticks[0]}`")
                 item.replace_span(mm2.end(), mm2.end(), itname + ": ")
             b = item.open_brace_after(a)
-            if twin:
-                close = match_bracket(mask(item.joined()), b)
-                lc, _ = item._line_index(close)
-                vlab = f"VAC.{meta['unit']}.{item.scope or name}.loop@{i}"
-                item.insert_lines(lc + 1, [Line("assert(false);", ("gen", "vacuity twin"), vlab)])
             item.insert_before_brace(b, block)
         elif dname in ("before", "after"):
             block, i = parse_block(raw, i + 1, unitfile, default_label)
